@@ -152,6 +152,7 @@ def unit(spec):
                 'cls': x.get('cls', 'PageTemplate'), 'options': x.get('options', {})}
                for x, y in pairs]
     compiled = k3.compile_schemas(schemas)
+    replays = 0
     obls = []
     for (x, y), s in zip(pairs, schemas):
         name = 'fresh[%s,%s]' % (x['id'], y['id'])
@@ -172,8 +173,13 @@ def unit(spec):
         else:
             o['status'] = 'failed'
             o['verifier_output'] = {'template': s['text'], 'colliding_locals': res}
-            # replay: run X's own contract concretely with Y as the child
-            o.update(replay_pair(x, y, res))
+            # replay: run X's own contract concretely with Y as the child (for the first few
+            # colliding pairs only: one witness is enough, a changed tree may collide everywhere)
+            replays += 1
+            if replays <= 4:
+                o.update(replay_pair(x, y, res))
+            else:
+                o['confirmed'] = False
         obls.append(o)
     return {'unit': 'FRESH', 'obligations': obls, 'wall': time.time() - t0,
             'trusted': ['def-use analysis of the generated render function (source order, '
